@@ -39,6 +39,7 @@ type Contract struct {
 	Cases    []Clause
 	Panics   []Clause
 	Canaries []Clause
+	Exits    []Clause // must hold on every exit, normal or panicking
 	Lets     []Clause // let name: expr  (abbreviations evaluated in the pre-state)
 	Assigns  []string
 	Pure     bool
@@ -390,7 +391,7 @@ func (db *ContractDB) loadFile(fn string) error {
 			}
 		case "replay":
 			cur.Replay = append(cur.Replay, rest)
-		case "requires", "ensures", "case", "canary", "let", "invariant":
+		case "requires", "ensures", "case", "canary", "let", "invariant", "exits":
 			cl, err := parseClause(rest, fn, ln+1)
 			if err != nil {
 				return err
@@ -404,6 +405,8 @@ func (db *ContractDB) loadFile(fn string) error {
 				cur.Cases = append(cur.Cases, cl)
 			case "canary":
 				cur.Canaries = append(cur.Canaries, cl)
+			case "exits":
+				cur.Exits = append(cur.Exits, cl)
 			case "let":
 				cur.Lets = append(cur.Lets, cl)
 			case "invariant":
